@@ -164,14 +164,18 @@ def text_stores():
     from sdc11073.xml_types.pm_types import LocalizedText, LocalizedTextWidth as W
     full = []
     for ref in ('a', 'b'):
-        for version in (1, 2):
+        for version in (0, 1, 2):
             for lang in ('en', 'de'):
                 for width in (W.S, W.M, W.L, None):
                     for lines in (1, 2):
                         txt = f'{ref}{version}{lang}{width.value if width else "none"}' + ('\nsecond line' if lines == 2 else '')
                         full.append(LocalizedText(txt, lang=lang, ref=ref, version=version, text_width=width))
+    v0 = [t for t in full if t.Version == 0]
+    full = [t for t in full if t.Version != 0]
     stores = {
         'full': full,
+        'v0-v1-v2': v0 + full,
+        'v0-only': v0,
         'v1-only': [t for t in full if t.Version == 1],
         'b-has-only-v1': [t for t in full if not (t.Ref == 'b' and t.Version == 2)],
         'single-lang': [t for t in full if t.Lang == 'en'],
@@ -201,7 +205,7 @@ def _loc_chunk(acc, store_name):
         acc.violation(f'GetSupportedLanguages/differs/{store_name}', {'got': langs, 'stored': sorted({t.Lang for t in all_texts})},
                       case={'kind': 'loc', 'store': store_name})
     ref_opts = [None, ['a'], ['a', 'b'], ['zz'], ['a', 'a']]
-    ver_opts = [None, 1, 2, 3]
+    ver_opts = [None, 0, 1, 2, 3]
     lang_opts = [None, ['en'], ['en', 'de'], ['fr']]
     width_opts = [None, [W.S], [W.M], [W.XS], [W.S, W.L]]
     line_opts = [None, [1], [2], [1, 2]]
@@ -248,7 +252,7 @@ def run(ctx):
     maxlen = 2 if ctx.quick else 3
     ctx.rule = ('GetMdState / GetContextStates: all handle lists of length <= %d over a pool of 9-11 handles (two context-state handles, '
                 'context descriptors, metric, MDS, VMD, system context, unknown; duplicates and mixed kinds arise by construction) over '
-                '%d MDIB contents x {single, two MDS} x contextstates_in_getmdib in {T, F}; GetLocalizedText: 6 text stores x all 1600 '
+                '%d MDIB contents x {single, two MDS} x contextstates_in_getmdib in {T, F}; GetLocalizedText: 8 text stores x all 2000 '
                 'combinations of ref / version / language / width / lines parameters; GetSupportedLanguages per store. '
                 'distinct_nontrivial = distinct expected selections' % (maxlen, len(PRE_STATES)))
     jobs = []
